@@ -164,6 +164,17 @@ func simulateReader(fn *ssa.Function, word string, boolFields map[string]bool, l
 			// track plain integer arithmetic (a parenthesis depth counter): phis take the value of the edge just taken
 			switch x := in.(type) {
 			case *ssa.BinOp:
+				// generalised: a comparison of known runes whose result is kept in a variable (`escaped = ch == '\\'`)
+				// rather than branched on at once: its boolean value on this path is recorded for the phis and branches
+				// that use it later
+				if x.Op == token.EQL || x.Op == token.NEQ {
+					if l, ok1 := runeVal(s, x.X, 0); ok1 {
+						if rr, ok2 := runeVal(s, x.Y, 0); ok2 {
+							s.Vals[x] = boolAB((l == rr) == (x.Op == token.EQL))
+						}
+					}
+					return
+				}
 				if b, ok := x.Type().Underlying().(*types.Basic); !ok || b.Kind() != types.Int {
 					return
 				}
